@@ -182,20 +182,21 @@ pub fn run(ctx: &Ctx) -> Verdict {
         "behaviour of ordered calls after the first deviation is not compared (not defined by the property)".into(),
     ];
     v.subs.push(super::replay_corpus(ctx));
-    let n = ctx.tier.pick(60_000, 1_200_000);
+    let n = ctx.tier.pick(200_000, 5_000_000);
     v.subs.push(vcore::run_proptest(ctx, "walk", n, gen::scenario(cfg()), check));
     let mut c2 = cfg();
     c2.guide = 215;
     c2.prefer_match = 41;
     c2.max_history = 14;
     c2.max_clauses = 6;
-    let n2 = ctx.tier.pick(250, 5_000);
+    let n2 = ctx.tier.pick(800, 20_000);
     let mut sub = vcore::run_proptest(ctx, "prefix-x-next", n2, gen::scenario(c2), check_extensions);
     sub.extra.insert(
         "note".into(),
         serde_json::json!("each evaluation is one configuration; all its prefix x next-call extensions are executed (typically 100-600 real runs per configuration)"),
     );
     v.subs.push(sub);
+    v.subs.extend(super::variant_reports(ctx, &["nostd-spin"]));
     v
 }
 
